@@ -534,6 +534,19 @@ def run(ctx):
                 k += 1
     ctx.inst("C01.R12", "scan", True, "%d unwrap/expect sites in reachable code were traced to the call that produced their operand" % n12, None)
 
+    # ---------------- R13 type guards answer Err, never panic
+    ctx.rule("C01.R13", "the type guards every built-in relies on (Value::as_*, HeapValue::as_*) contain no panicking call (unwrap / expect / panic! / unreachable! / indexing) and have a path that builds an error: a value of the wrong kind is reported, not a crash", floor=15)
+    PANICKY = re.compile(r"^core::panicking::|::unwrap$|::expect$|::unwrap_unchecked$|as core::ops::index::Index|^core::option::unwrap_failed|^core::result::unwrap_failed|^std::process::(exit|abort)$")
+    for n_, f_ in sorted(core.mir.items()):
+        if not re.search(r"^blots_core::(values::Value|heap::HeapValue)::as_\w+$", n_):
+            continue
+        g = M.Fn(f_, n_)
+        bad = sorted({g.callee(b) for b in g.call_blocks() if PANICKY.search(g.callee(b) or "")})
+        bad += ["assert(%s)" % (g.term(b).get("kind") or "?") for b in range(g.n) if g.term(b)["k"] == "assert" and not g.blocks[b].get("cleanup")]
+        errs = [1 for b in range(g.n) for st_ in g.stmts(b) if st_["k"] == "assign" and st_["rv"]["k"] == "agg" and st_["rv"].get("adt") == "core::result::Result" and st_["rv"].get("variant") == "Err"]
+        has_err = bool(errs) or any((g.callee(b) or "").endswith("anyhow::error::<impl anyhow::Error>::msg") or "anyhow" in (g.callee(b) or "") for b in g.call_blocks())
+        ctx.inst("C01.R13", n_.replace(CORE, ""), not bad and has_err, "panicking calls: %s; builds an error for the wrong kind: %s" % (bad or "none", has_err), g.loc())
+
     # ---------------- R10 table lookups that `expect`
     ctx.rule("C01.R10", "operator_info's expect is discharged: every BinaryOp variant has exactly one row in PRECEDENCE_TABLE", floor=26)
     rows = c10.precedence_rows(core)
